@@ -167,6 +167,10 @@ func (w *permWorld) pickClient() string {
 
 // runPerm is the body of C07.
 func runPerm(t *testing.T, rc *RunCtx) {
+	if rc.Param("mode", "") == "daemon" {
+		runDaemonPerm(t, rc, "C07")
+		return
+	}
 	ch := rc.Ch
 	w := newPermWorld(t, rc)
 	defer w.close()
@@ -312,6 +316,10 @@ func runPerm(t *testing.T, rc *RunCtx) {
 
 // runList is the body of C18.
 func runList(t *testing.T, rc *RunCtx) {
+	if rc.Param("mode", "") == "daemon" {
+		runDaemonPerm(t, rc, "C18")
+		return
+	}
 	ch := rc.Ch
 	w := newPermWorld(t, rc)
 	defer w.close()
